@@ -87,4 +87,14 @@ PROPS = {
         ],
         assumptions=[],
     ),
+    "C16": dict(
+        gen=[],
+        trusted=[
+            "encoding/xml is an oracle twice over: tokenisation (the model sees start / end / text events with local element names mapped to the codes of C16_Docs.v and the one attribute each walker reads) and the struct-tag path matching that fills bodyXML's four slices (modelled as a path stack, compared with the counts the unmarshaller produces through the verif hook VerifBodyCounts)",
+            "modelled after the code: docx.paragraphInlineText + parseSymbolChar, odt.inlineText, docx parseBodyElementsInOrder, docx StyleResolver.Resolve/buildInheritanceChain (heading level only; detectHeading's own-style markers are inputs: outline level or a name starting with heading), docx/odt parseCell text joining, docx processVerticalMerges, odt processRowSpans, ToModelTable of both, the list grouping and empty-paragraph dropping of docx/odt Reader.Document(). verif hooks VerifParagraphInlineText, VerifInlineText, VerifBodyOrder call the unexported functions directly",
+            "NOT modelled: Text() and Markdown rendering of the two readers (checked by property predicates on the implementation: anchor order, heading marks, list indentation, header/footer leak), numbering formats and bullets, run formatting, ODT list-level parsing (text:list nesting -> level; tied end-to-end only through the generated packages), the bold/size heading heuristic of detectHeading, nested block-level content controls",
+            "the row span a vertical merge gives its start cell and the column at which an ODT cell lands under row spans from above are tied by correspondence and by an independent occupancy-grid oracle in the harness, not by a theorem (vertical_merges_keep_text_spans_and_order_partial states what is proved)",
+        ],
+        assumptions=["documents are well-formed XML; no element named body occurs below the body element (the depth counter of the order pass is not adjusted for it)"],
+    ),
 }
